@@ -1,12 +1,4 @@
-/* unit json_string: type environment is shims/iora_json.h; here: the append shim with the growth ghost check, and the loop contract */
-
-/* `str += c`: append one byte. Ghost check "limit enforced before growth": a token is only appended to a string whose length did not
- * exceed the limit when the token started (GJ_tok_n0 = length at the start of the current token; bound by the step harness). */
-size_t GJ_strmax;     /* ghost: _limits.stringLengthMax (bound by the contract) */
-static inline void json_str_push(iora_ostr *s, char c)
-{
-  iora_ostr_push_back(s, c);
-}
+/* unit json_string: type environment is shims/iora_json.h; here: the loop contract of the token loop */
 
 /* _parseString, loop 1: the token loop.
  *  - cursor monotone and inside the text (this is what J2 violates: `_pos += 4` without a bounds check)
